@@ -458,6 +458,9 @@ func ParseTupleAndKeywords(args Tuple, kwargs StringDict, format string, kwlist 
 
 		// Unspecified args retain their default value
 		if arg == nil {
+			if i < min {
+				return ExceptionNewf(TypeError, "%s() Required argument '%s' (pos %d) not found", name, kw, i+1)
+			}
 			continue
 		}
 
